@@ -197,6 +197,12 @@ class Inst:
         elif self.variant == "ser":
             self.mT = serialization_method(T, **skw)
             self.mU = serialization_method(U)
+            from apischema.json_schema import serialization_schema
+
+            try:  # C07's quantifier: dynamic / field / registered conversions
+                self.ser_schema = dict(serialization_schema(T, **skw))
+            except Exception as e:
+                self.ser_schema = ("raise", type(e).__name__)
             self.functions = sorted(set(method_classes(self_of(self.mT)) + method_classes(self_of(self.mU))))
         self.functions += ["apischema.conversions.visitor.ConversionsVisitor.visit (concrete, at compile time)"]
         self.expect_tags = ["compared"]
@@ -283,6 +289,15 @@ class Inst:
         ctx.notes["tag:compared"] = True
         if not same(a, b):
             return Failure("serialization-differs-from-serialize(U, g(v))", witness=u, extra={"T": a, "U": b})
+        if isinstance(self.ser_schema, tuple):
+            return Failure("serialization-schema-raises", witness=u, extra={"exc": self.ser_schema[1]})
+        from vf.oracle.jsvalid import D2020, Evaluator, OutsideDomain
+
+        try:
+            if not Evaluator(self.ser_schema, D2020).valid(a):
+                return Failure("converted-output-invalid-against-serialization-schema", witness=u, extra={"out": a, "schema": self.ser_schema})
+        except OutsideDomain:
+            pass
         return None
 
     def schema(self, ctx: Ctx):
